@@ -25,6 +25,7 @@ import (
 	"sort"
 	"strconv"
 	"strings"
+	"time"
 	"unicode"
 	"unicode/utf8"
 
@@ -370,6 +371,7 @@ type c36world struct {
 
 var c36w *c36world
 var c36worlds int
+var c36reported = map[string]int{}
 
 func c36newWorld() *c36world {
 	etoken.GENERICS = etoken.GENERICS_NONE
@@ -490,8 +492,17 @@ func (w *c36world) gomacroAccepts(expr string) (ok bool) {
 
 // ---------------------------------------------------------------- Exec
 
+var c36times = map[string]time.Duration{}
+
 func c36exec(op string) Result {
+	t0 := time.Now()
 	ts := strings.Split(op, " ")
+	defer func() {
+		c36times[ts[0]] += time.Since(t0)
+		if ts[0] == "reset" && os.Getenv("C36_DEBUG") == "time" {
+			fmt.Fprintln(os.Stderr, "C36 times", c36times)
+		}
+	}()
 	switch ts[0] {
 	case "reset":
 		c36w = c36newWorld()
@@ -695,7 +706,9 @@ func c36complete(w *c36world, ts []string) Result {
 	pos, _ := strconv.Atoi(ts[1])
 	line := c36decodeLine(ts[2])
 	n0 := w.out.Len()
+	tc := time.Now()
 	head, comps, tail := w.ir.CompleteWords(line, pos)
+	c36times["CompleteWords"] += time.Since(tc)
 	printed := w.out.String()[n0:]
 	w.out.Truncate(n0)
 	panicked := strings.Contains(printed, "panic in Interp.CompleteWords")
@@ -708,7 +721,10 @@ func c36complete(w *c36world, ts []string) Result {
 	res := Result{Out: out, Sig: fmt.Sprintf("%d|%s", w.nth, strings.Join(ts[:3], " "))}
 	tag := func(t string) { res.Tags = append(res.Tags, t) }
 	viol := func(key, msg string) {
-		if res.Viol == "" {
+		// the harness keeps only the first 50 violations of a run: report every Key at most 3 times so that
+		// a frequent (known) shape cannot push a new one out of the report; the tags count all of them
+		if res.Viol == "" && c36reported[key] < 3 {
+			c36reported[key]++
 			res.Key = key
 			res.Viol = fmt.Sprintf("CompleteWords(%q, %d) = (%q, %q, %q): %s", line, pos, head, comps, tail, msg)
 			if dbg := os.Getenv("C36_DEBUG"); dbg != "" && strings.Contains(key, dbg) {
@@ -776,7 +792,7 @@ func c36complete(w *c36world, ts []string) Result {
 	switch {
 	case !onWord:
 		kind = "no-word"
-	case glued:
+	case glued && len(chain) == 0:
 		if typed != "" {
 			want = c36wantWord(w, typed)
 		}
@@ -926,9 +942,13 @@ func c36wantMembers(w *c36world, chain []string, typed string, offered []string)
 	if typeRooted {
 		kind = "type-receiver"
 	}
+	// candidate names: every field / method name reachable from the receiver type, the generator's name
+	// pools (names that exist elsewhere in the state but must NOT be offered here), and what was offered
 	cands := map[string]bool{}
-	for n := range w.pool {
-		cands[n] = true
+	for _, l := range [][]string{c36fieldNames, c36methodNames, c36ifaceMethods, c36typeNames} {
+		for _, n := range l {
+			cands[n] = true
+		}
 	}
 	for _, c := range offered {
 		cands[c] = true
@@ -1442,6 +1462,25 @@ func (g *c36genWorld) genLine(r *rand.Rand) (line string, pos int) {
 	return line, pos
 }
 
+func (g *c36genWorld) genBind(r *rand.Rand, emit func(string)) {
+	name := pick(r, c36varNames)
+	for _, im := range g.imports {
+		if im[1] == name {
+			return
+		}
+	}
+	kind := pick(r, []string{"var", "var", "var", "var", "var", "func", "const"})
+	t := &c36ty{k: 'B'}
+	if kind == "var" {
+		t = g.randomValueType(r)
+	}
+	if _, dup := g.bindTy[name]; !dup {
+		g.binds = append(g.binds, name)
+	}
+	g.bindTy[name] = t
+	emit(kind + " " + name + " " + strings.Join(t.toks(), " "))
+}
+
 func c36genWorldOps(r *rand.Rand, emit func(string), nlines int, emitted map[string]bool) {
 	emit(c36resetOp())
 	for k := range emitted {
@@ -1458,24 +1497,7 @@ func c36genWorldOps(r *rand.Rand, emit func(string), nlines int, emitted map[str
 	}
 	nv := 2 + r.Intn(6)
 	for i := 0; i < nv; i++ {
-		name := pick(r, c36varNames)
-		clash := false
-		for _, im := range g.imports {
-			clash = clash || im[1] == name
-		}
-		if clash {
-			continue
-		}
-		kind := pick(r, []string{"var", "var", "var", "var", "var", "func", "const"})
-		t := &c36ty{k: 'B'}
-		if kind == "var" {
-			t = g.randomValueType(r)
-		}
-		if _, dup := g.bindTy[name]; !dup {
-			g.binds = append(g.binds, name)
-		}
-		g.bindTy[name] = t
-		emit(kind + " " + name + " " + strings.Join(t.toks(), " "))
+		g.genBind(r, emit)
 	}
 	for i := 0; i < nlines; i++ {
 		line, pos := g.genLine(r)
@@ -1485,9 +1507,13 @@ func c36genWorldOps(r *rand.Rand, emit func(string), nlines int, emitted map[str
 			opn, pos = "completeb", len(string(rl[:pos]))
 		}
 		emit(fmt.Sprintf("%s %d %s # %s", opn, pos, c36encodeLine(line), strconv.QuoteToASCII(line)))
-		// occasionally declare something more in the middle of a history
-		if i == nlines/2 && r.Intn(2) == 0 && len(g.types) < len(c36typeNames) {
-			g.genType(r, c36typeNames[perm[len(g.types)]], emit)
+		// keep declaring in the middle of a history: the state a line is completed in keeps changing
+		if i%15 == 14 {
+			if r.Intn(2) == 0 && len(g.types) < len(c36typeNames) {
+				g.genType(r, c36typeNames[perm[len(g.types)]], emit)
+			} else {
+				g.genBind(r, emit)
+			}
 		}
 	}
 }
@@ -1514,9 +1540,9 @@ func c36genExhaustive(emit func(string)) {
 
 func c36gen(r *rand.Rand, tier string, emit func(string)) {
 	c36genExhaustive(emit)
-	nw, nl := 260, 40
+	nw, nl := 40, 150
 	if tier == "thorough" {
-		nw, nl = 5000, 60
+		nw, nl = 800, 200
 	}
 	emitted := map[string]bool{}
 	for i := 0; i < nw; i++ {
